@@ -554,9 +554,19 @@ def roles(ctx, W, o):
     if len(gets) != 1 or len(fins) != 1:
         return None
     res = None
+
+    def origin(e, depth=0):
+        """member of this whose value e denotes, looking through local variables (copies / references)"""
+        m = member_of_this(tu, e)
+        if m is not None or depth > 4:
+            return m
+        d = tu.node(decl_ref(tu, e)) if decl_ref(tu, e) else None
+        if d is not None and d.get('kind') == 'VarDecl' and tu.kids(d) and tu.enclosing_fn(d) is not None:
+            return origin(tu.kids(d)[-1], depth + 1)
+        return None
     for b, i, n in tu.cfg(gets[0]).stmts():
         if n.get('kind') == 'ReturnStmt' and tu.kids(n):
-            m = member_of_this(tu, tu.kids(n)[0])
+            m = origin(tu.kids(n)[0])
             if m is None or (res is not None and m != res):
                 return None
             res = m
@@ -1655,6 +1665,12 @@ def check_publication_order(ctx, W, tu, verdicts=None):
                         ev[x['id']] = ('store', x, dst)
                         continue
                     srcs = []
+                    if name in STORE_METHODS:       # element-wise copy: an element of another container (loop variable) is stored
+                        for a in args:
+                            v = decl_ref(tu, a)
+                            rp = loop_range_path(tu, tu.node(v)) if v else None
+                            if rp is not None and rp != dst:
+                                srcs.append(rp)
                     if name in ('insert', 'assign', 'swap', 'operator=', 'merge', 'splice'):
                         for a in args:
                             for y in tu.walk(a):
